@@ -1126,28 +1126,70 @@ func (ctx *RenderContext) EvaluateExpression(node Node) (interface{}, error) {
 func sortedMapKeys(m reflect.Value) []reflect.Value {
 	keys := m.MapKeys()
 	sort.SliceStable(keys, func(i, j int) bool {
-		a, b := keys[i], keys[j]
-		for a.Kind() == reflect.Interface && !a.IsNil() {
-			a = a.Elem()
-		}
-		for b.Kind() == reflect.Interface && !b.IsNil() {
-			b = b.Elem()
-		}
-		if a.Kind() == b.Kind() {
-			switch a.Kind() {
-			case reflect.String:
-				return a.String() < b.String()
-			case reflect.Int, reflect.Int8, reflect.Int16, reflect.Int32, reflect.Int64:
-				return a.Int() < b.Int()
-			case reflect.Uint, reflect.Uint8, reflect.Uint16, reflect.Uint32, reflect.Uint64:
-				return a.Uint() < b.Uint()
-			case reflect.Float32, reflect.Float64:
-				return a.Float() < b.Float()
-			}
-		}
-		return fmt.Sprint(a) < fmt.Sprint(b)
+		return mapKeyLess(keys[i], keys[j])
 	})
 	return keys
+}
+
+// mapKeyLess is a total order on map keys: numbers (by value, then by kind)
+// before strings before everything else (by printed form, then by kind). Keys
+// of an interface-keyed map that print alike, such as 1 and "1", are therefore
+// always walked in the same order.
+func mapKeyLess(a, b reflect.Value) bool {
+	for a.Kind() == reflect.Interface && !a.IsNil() {
+		a = a.Elem()
+	}
+	for b.Kind() == reflect.Interface && !b.IsNil() {
+		b = b.Elem()
+	}
+	ra, rb := mapKeyRank(a), mapKeyRank(b)
+	if ra != rb {
+		return ra < rb
+	}
+	if a.Kind() == b.Kind() {
+		switch a.Kind() {
+		case reflect.String:
+			return a.String() < b.String()
+		case reflect.Int, reflect.Int8, reflect.Int16, reflect.Int32, reflect.Int64:
+			return a.Int() < b.Int()
+		case reflect.Uint, reflect.Uint8, reflect.Uint16, reflect.Uint32, reflect.Uint64:
+			return a.Uint() < b.Uint()
+		case reflect.Float32, reflect.Float64:
+			return a.Float() < b.Float()
+		}
+	}
+	if ra == 0 {
+		if fa, fb := mapKeyFloat(a), mapKeyFloat(b); fa != fb {
+			return fa < fb
+		}
+		return a.Kind() < b.Kind()
+	}
+	if sa, sb := fmt.Sprint(a), fmt.Sprint(b); sa != sb {
+		return sa < sb
+	}
+	return a.Kind() < b.Kind()
+}
+
+func mapKeyRank(v reflect.Value) int {
+	switch v.Kind() {
+	case reflect.Int, reflect.Int8, reflect.Int16, reflect.Int32, reflect.Int64,
+		reflect.Uint, reflect.Uint8, reflect.Uint16, reflect.Uint32, reflect.Uint64,
+		reflect.Float32, reflect.Float64:
+		return 0
+	case reflect.String:
+		return 1
+	}
+	return 2
+}
+
+func mapKeyFloat(v reflect.Value) float64 {
+	switch v.Kind() {
+	case reflect.Int, reflect.Int8, reflect.Int16, reflect.Int32, reflect.Int64:
+		return float64(v.Int())
+	case reflect.Uint, reflect.Uint8, reflect.Uint16, reflect.Uint32, reflect.Uint64:
+		return float64(v.Uint())
+	}
+	return v.Float()
 }
 
 // positiveZero turns the floating-point negative zero that arithmetic on
